@@ -32,6 +32,8 @@ valid if the number modulo 97 is 1. As such it has two check digits.
 '08686001256515001121751'
 >>> calc_check_digits('22181321402534321446701611')
 '35'
+>>> calc_check_digits('9' * 5000)  # numbers of any length
+'52'
 """
 
 from stdnum.exceptions import *
@@ -51,7 +53,12 @@ def _to_base10(number):
 
 def checksum(number):
     """Calculate the checksum. A valid number should have a checksum of 1."""
-    return int(_to_base10(number)) % 97
+    number = _to_base10(number)
+    # reduce in chunks to stay below the integer string conversion limit
+    check = int(number[:4000])
+    for i in range(4000, len(number), 4000):
+        check = int(str(check % 97) + number[i:i + 4000])
+    return check % 97
 
 
 def calc_check_digits(number):
